@@ -24,15 +24,15 @@ def hValidated (s0 : St) (h : Int) (t : TxIn) (recv : Account) : Step St → St 
   | .error (.panic site) => (s0, { code := 5, kind := "panic", panic := site })
   | .ok sv => hFinish sv t.gas (runTrx sv true h t recv)
 
-theorem handleTx_eq (s : St) (h : Int) (t : TxIn) :
-    handleTx s true h t =
+theorem handleTxOld_eq (s : St) (h : Int) (t : TxIn) :
+    handleTxOld s true h t =
       if t.decodable = false then (s, { code := 5, kind := "decode" }) else
       match s.accts.fin[ledgerKey t.from_]? with
       | none => (s, { code := 5, kind := "noacct" })
       | some sender =>
         hValidated (s.findOrNewAcct true t.to).1 h t (s.findOrNewAcct true t.to).2
           (validateTrx (s.findOrNewAcct true t.to).1 true h t sender (s.findOrNewAcct true t.to).2) := by
-  unfold handleTx
+  unfold handleTxOld
   simp only [findAcct_true]
   cases hd : t.decodable with
   | false => simp
@@ -54,6 +54,18 @@ theorem handleTx_eq (s : St) (h : Int) (t : TxIn) :
           obtain ⟨x, g, k⟩ := p
           cases k <;> rfl
 
+
+/-- the staged form holds for a 20-byte receiver (any other receiver fails validation with the state
+    unchanged, `handleTx_badlen`) -/
+theorem handleTx_eq (s : St) (h : Int) (t : TxIn) (hl : byteLen t.to = 20) :
+    handleTx s true h t =
+      if t.decodable = false then (s, { code := 5, kind := "decode" }) else
+      match s.accts.fin[ledgerKey t.from_]? with
+      | none => (s, { code := 5, kind := "noacct" })
+      | some sender =>
+        hValidated (s.findOrNewAcct true t.to).1 h t (s.findOrNewAcct true t.to).2
+          (validateTrx (s.findOrNewAcct true t.to).1 true h t sender (s.findOrNewAcct true t.to).2) := by
+  rw [handleTx_goodlen hl]; exact handleTxOld_eq s h t
 
 /-! ### the congruence -/
 
@@ -126,7 +138,13 @@ theorem handleTx_congr {P : Hex → Prop} {s1 s2 : St} (hS : Sim P s1 s2) (hF : 
     (hm : 0 < s1.active.minTrxFee) (h : Int) (t : TxIn) (hto : Compat P t.to)
     (hO : OracleCompat P t) (hC : CreatedOK P t) :
     ResRel (handleTx s1 true h t) (handleTx s2 true h t) := by
-  rw [handleTx_eq, handleTx_eq]
+  by_cases hl : byteLen t.to = 20
+  case neg =>
+    obtain ⟨k1, e1⟩ := handleTx_badlen (s := s1) (exec := true) (h := h) hl
+    obtain ⟨k2, e2⟩ := handleTx_badlen (s := s2) (exec := true) (h := h) hl
+    rw [e1, e2]
+    exact ⟨rfl, (fun h => by simp at h), hS.top⟩
+  rw [handleTx_eq _ _ _ hl, handleTx_eq _ _ _ hl]
   by_cases hd : t.decodable = false
   · simp only [hd, if_true]; exact ⟨rfl, (fun h => by simp at h), hS.top⟩
   simp only [hd, if_false]
